@@ -42,12 +42,18 @@ Inductive fres := FErr | FOk (b : fbundle) (from_cache : bool).
 
 (* fetchDeltaCRL: try the advertised locations in order; returns the delta, the downloads made, and
    whether an error results *)
+(* fetchCRL: only plain-http URLs are ever requested; any other scheme fails without a request.
+   URL identifiers are integers; the negative ones stand for URLs whose scheme is not "http". *)
+Definition plain_http (u : Z) : bool := 0 <=? u.
+Definition dl (srv : list (Z * fcrl)) (u : Z) : option fcrl := if plain_http u then lookup srv u else None.
+Definition dev (u : Z) : list fevent := if plain_http u then [EDownload u] else [].
+
 Fixpoint first_answer (srv : list (Z * fcrl)) (us : list Z) : option fcrl * list fevent :=
   match us with
   | [] => (None, [])
-  | u :: r => match lookup srv u with
-              | Some d => (Some d, [EDownload u])
-              | None => let (x, ev) := first_answer srv r in (x, EDownload u :: ev)
+  | u :: r => match dl srv u with
+              | Some d => (Some d, dev u)
+              | None => let (x, ev) := first_answer srv r in (x, dev u ++ ev)
               end
   end.
 
@@ -70,8 +76,8 @@ Definition fetch_delta (srv : list (Z * fcrl)) (base : fcrl) : dres * list feven
 (* HTTPFetcher.fetch + the cache write-back: result, new cache content, events in order *)
 Definition fetch_download (cfg : fcfg) (w : fworld) (url : Z) (pre : list fevent) : fres * list (Z * fbundle) * list fevent :=
   let cache := fw_cache w in
-  match lookup (fw_server w) url with
-  | None => (FErr, cache, pre ++ [EDownload url])
+  match dl (fw_server w) url with
+  | None => (FErr, cache, pre ++ dev url)
   | Some base =>
       match fetch_delta (fw_server w) base with
       | (DErr, ev) => (FErr, cache, pre ++ EDownload url :: ev)
